@@ -2,6 +2,26 @@
 //! code, exit 3 and print NOT-REPRODUCED otherwise.  `kf --list` lists the ids.
 use oq3_semantics::types::{promote_types, IsConst, Type};
 use std::process::exit;
+use std::sync::mpsc;
+use std::time::Duration;
+
+/// outcome of running the always-parse entry point on `src` in a helper thread
+#[derive(Debug, PartialEq)]
+enum Run { Returned { errors: usize }, Panicked(String), Hung }
+
+fn parse_outcome(src: &'static str) -> Run {
+    let (tx, rx) = mpsc::channel();
+    std::thread::spawn(move || {
+        let r = std::panic::catch_unwind(|| oq3_syntax::SourceFile::parse(src).errors().len());
+        let _ = tx.send(match r {
+            Ok(n) => Run::Returned { errors: n },
+            Err(e) => Run::Panicked(e.downcast_ref::<String>().cloned().or_else(|| e.downcast_ref::<&str>().map(|s| s.to_string())).unwrap_or_default()),
+        });
+    });
+    rx.recv_timeout(Duration::from_secs(5)).unwrap_or(Run::Hung)
+}
+fn lex_errors(src: &str) -> usize { oq3_parser::LexedStr::new(src).errors().count() }
+
 
 fn c(b: bool) -> IsConst {
     if b { IsConst::True } else { IsConst::False }
@@ -34,8 +54,43 @@ fn table() -> Vec<(&'static str, Check)> {
     ]
 }
 
+/// defects that were repaired by a `fix:` commit: REPRODUCED here means the defect is BACK
+fn fixed_table() -> Vec<(&'static str, Check)> {
+    vec![
+        ("C11-bitstring-underscores", || {
+            let n = lex_errors("bit[4] b = \"0__1");
+            (n == 0, format!("lexical diagnostics for unterminated `\"0__1`: {n}"))
+        }),
+        ("C01-tokenset-shift", || {
+            let r = parse_outcome("x = OPENQASM 3;");
+            (matches!(r, Run::Panicked(_)), format!("SourceFile::parse(\"x = OPENQASM 3;\") -> {:?}", r))
+        }),
+        ("C01-delay-no-designator", || {
+            let r = parse_outcome("delay q;");
+            (matches!(r, Run::Panicked(_)), format!("SourceFile::parse(\"delay q;\") -> {:?}", r))
+        }),
+        ("C01-param-list-hang", || {
+            let r = parse_outcome("def f(3) {}");
+            let r2 = parse_outcome("extern f(x");
+            (r == Run::Hung || r2 == Run::Hung, format!("parse(\"def f(3) {{}}\") -> {:?}; parse(\"extern f(x\") -> {:?}", r, r2))
+        }),
+    ]
+}
+
 fn main() {
+    std::panic::set_hook(Box::new(|_| {}));
     let arg = std::env::args().nth(1).unwrap_or_default();
+    if arg == "--fixed" {
+        let id = std::env::args().nth(2).unwrap_or_default();
+        for (fid, f) in fixed_table() {
+            if id == fid || id == "--all" {
+                let (rep, what) = f();
+                println!("{} {}: {}", if rep { "DEFECT-BACK" } else { "STILL-FIXED" }, fid, what);
+                if id != "--all" { exit(if rep { 3 } else { 0 }); }
+            }
+        }
+        exit(0);
+    }
     if arg == "--list" {
         for (id, _) in table() {
             println!("{id}");
